@@ -13,6 +13,7 @@ import (
 	"io"
 	"math/big"
 	"os"
+	"runtime"
 	"strings"
 	"sync/atomic"
 	"time"
@@ -458,6 +459,10 @@ func worker(tb []byte, progress func()) []byte {
 	json.Unmarshal(tb, &t)
 	h.Boot(2, 1)
 	rt.CurMode = rt.Free
+	// one P: what a parser puts into a sync.Pool when its stream ends is what the next stream's parser
+	// gets (with several Ps that depends on where the goroutines land) - resource reuse across
+	// connections is part of what is explored, so it has to be deterministic
+	runtime.GOMAXPROCS(1)
 	var res result
 	seen := map[string]bool{}
 	addV := func(v viol) {
@@ -508,6 +513,48 @@ func worker(tb []byte, progress func()) []byte {
 			})
 			if len(res.Samples) < 2 {
 				res.Samples = append(res.Samples, fmt.Sprintf("well-formed %s (%d bytes) under every partition", fmtCmds(cmds), len(b)))
+			}
+		}
+	case "lengths":
+		// every argument length around any plausible buffer size and every element count of a
+		// many-argument command: decoding must not depend on where an argument ends in a buffer
+		var streams [][][][]byte
+		for n := 0; n <= 1100; n++ {
+			if n > 600 && n < 1000 {
+				continue
+			}
+			v := bytes.Repeat([]byte("v"), n)
+			streams = append(streams, [][][]byte{{[]byte("ECHO"), v}}, [][][]byte{{[]byte("SET"), []byte("k"), v}}, [][][]byte{{v}})
+		}
+		for m := 1; m <= 130; m++ {
+			c := [][]byte{[]byte("RPUSH"), []byte("l")}
+			for i := 0; i < m; i++ {
+				c = append(c, []byte("elem5"))
+			}
+			streams = append(streams, [][][]byte{c})
+			c2 := [][]byte{[]byte("DEL")}
+			for i := 0; i < m; i++ {
+				c2 = append(c2, []byte(""))
+			}
+			streams = append(streams, [][][]byte{c2}, [][][]byte{c, {[]byte("PING")}})
+		}
+		for si, cmds := range streams {
+			if si%t.Of != t.Shard {
+				continue
+			}
+			if si%64 == 0 {
+				progress()
+			}
+			b := encodeStream(cmds)
+			res.Streams++
+			shape := fmt.Sprintf("lengths:%d-args,last-arg-%d-bytes", len(cmds[0]), len(cmds[0][len(cmds[0])-1]))
+			for _, cut := range []int{0, 1, len(b) / 2, len(b) - 1} {
+				res.Runs++
+				if cut <= 0 || cut >= len(b) {
+					checkWell(&res, addV, cmds, b, runParser([][]byte{b}), shape, "whole")
+					continue
+				}
+				checkWell(&res, addV, cmds, b, runParser([][]byte{b[:cut], b[cut:]}), shape, fmt.Sprintf("cut@%d", cut))
 			}
 		}
 	case "malformed":
@@ -715,7 +762,7 @@ func main() {
 	rep := ev.NewReport("C02", "exploration")
 	p := &pool.Pool{Handler: "respmc", N: 16, Timeout: 4 * time.Minute, MemMB: 3072}
 	var tasks [][]byte
-	for _, k := range []string{"wellformed", "malformed", "handle"} {
+	for _, k := range []string{"wellformed", "lengths", "malformed", "handle"} {
 		n := 16
 		if k == "malformed" {
 			n = 64
@@ -769,7 +816,7 @@ func main() {
 	cov := map[string]interface{}{
 		"evaluations":         runs,
 		"distinct_nontrivial": distinct + streams,
-		"rule":                "well-formed: argument vectors over {CR,LF,NUL,0xFF,a,$,*,space} (all strings up to the length bound, 1-3 arguments, pipelines of 1-3 commands, one 5000-byte argument) x every partition of the encoded stream into read chunks (all 2^(L-1) when L<=16, else every partition with <= the cut bound, all-single-bytes, zero-length reads; and, for a parser that arms read deadlines on its reader, every partition again with the deadline expiring before every chunk): decoded commands must equal the encoded ones. malformed: every byte string up to the length bound over {*,$,+,-,:,0,1,2,a,CR,LF} plus targeted families, alone and before/after/between PINGs: no panic, parser terminates, nothing delivered that is not a well-formed command of the input; at Handle level the connection is closed and a second connection still gets PONG. distinct_nontrivial = (stream, partition) runs decoded correctly + distinct input streams",
+		"rule":                "well-formed: argument vectors over {CR,LF,NUL,0xFF,a,$,*,space} (all strings up to the length bound, 1-3 arguments, pipelines of 1-3 commands, one 5000-byte argument; family lengths: one argument of every length 0..600 and 1000..1100 in three command shapes, commands of 1..130 arguments, whole and under three cuts) x every partition of the encoded stream into read chunks (all 2^(L-1) when L<=16, else every partition with <= the cut bound, all-single-bytes, zero-length reads; and, for a parser that arms read deadlines on its reader, every partition again with the deadline expiring before every chunk): decoded commands must equal the encoded ones. malformed: every byte string up to the length bound over {*,$,+,-,:,0,1,2,a,CR,LF} plus targeted families, alone and before/after/between PINGs: no panic, parser terminates, nothing delivered that is not a well-formed command of the input; at Handle level the connection is closed and a second connection still gets PONG. distinct_nontrivial = (stream, partition) runs decoded correctly + distinct input streams",
 		"samples":             samples,
 		"exhaustive":          crashes == 0 && cutInputs == 0,
 		"handle_inputs_cut_after_three_stuck_handlers": cutInputs,
